@@ -153,11 +153,18 @@ func shrinkTokensField(c core.Case, get func(core.Case) string, set func(*core.C
 		emit(toks[:n/2])
 		emit(toks[n/2:])
 	}
-	for i := 0; i < n; i++ {
-		emit(without(i))
-	}
-	for i := 0; i+1 < n; i++ {
-		emit(without(i, i+1))
+	// contiguous windows, longest first (drops whole leaves such as `f : [ 1 TO 5 ]` in one step)
+	for l := n - 1; l >= 1; l-- {
+		if l > 12 && l < n-1 {
+			continue
+		}
+		for i := 0; i+l <= n; i++ {
+			t := append([]string{}, toks[:i]...)
+			t = append(t, toks[i+l:]...)
+			if len(t) > 0 {
+				emit(t)
+			}
+		}
 	}
 	// bracket pairs
 	open := map[string]string{"(": ")", "[": "]", "{": "}"}
